@@ -192,6 +192,39 @@ def taxonomy_oracles(recs, lit0):
     return sorted(set(taxon_like)), [[k, v] for k, v in compiled.items()]
 
 
+def drawn_texts(ctx, n_corpus, n_generated):
+    """Sequence texts beyond the constants: programs of the /repo/examples corpus and programs generated by the
+    grammar of harness/flat_export.Gen (with, lambda, nested def, comprehension, class, match, async, …)."""
+    out = []
+    corpus = []
+    for sub in ("simple", "idioms", "mini"):
+        d = core.REPO / "examples" / sub / "programs"
+        if d.is_dir():
+            corpus += sorted(d.glob("*.py"))
+    ctx.rng.shuffle(corpus)
+    for path in corpus[:n_corpus]:
+        try:
+            t = path.read_text()
+        except Exception:  # noqa
+            continue
+        if "paroxython" in t.lower() or len(t) > 3000:
+            continue
+        out.append(t)
+        ctx.dist("seq.text.corpus")
+    try:
+        from . import flat_export
+        gen = flat_export.Gen(ctx.rng, max_depth=3, adv=0.1)
+        for _ in range(n_generated):
+            src, _tree, _rej = flat_export.gen_valid(gen)
+            if "paroxython" in src.lower():
+                continue
+            out.append(src)
+            ctx.dist("seq.text.generated")
+    except Exception as e:  # noqa
+        ctx.notes.append(f"flat_export.Gen not usable for the C03 sequences: {type(e).__name__}: {e}")
+    return list(dict.fromkeys(out))
+
+
 def norm_labels(pairs):
     return [[n, [c11.span3(s) for s in sp]] for n, sp in pairs]
 
@@ -205,7 +238,8 @@ def stream_sequences(ctx, drv, n_seq):
     query_ids = list(probe.queries.keys())
     prereq = regex.compile(r"(?m)\b(?:FROM|JOIN) t_(\w+)").findall
     queries = [[q, prereq(probe.queries[q])] for q in query_ids]
-    texts = list(TEXTS)
+    texts = list(TEXTS)  # fixed prefix (the indices of the fixed sequences refer to it)
+    texts += drawn_texts(ctx, n_corpus=6 if ctx.tier == "quick" else 40, n_generated=10 if ctx.tier == "quick" else 70)
     recs = [reference(t, query_ids) for t in texts]
     from paroxython.list_programs import get_program
     for h, b in BASE_OF_HINTED.items():
